@@ -133,9 +133,16 @@ CHECKS['C19'] = {
     'technique': 'TLA+ exact 4-point-grid model + TLC enumeration + state replay; TLC-validated observation events',
 }
 
+CHECKS['C17'] = {
+    'text': 'EigenArgs.tla: (1) the argument-validation decision table - NSIG / threshold / AIC-MDL rule mutually exclusive, 0 <= NSIG < P, method in {music, ev} - every combination enumerated by TLC and replayed into eigen, music, ev, pmusic, pev (accept / reject, an explicit NSIG makes the criterion irrelevant); (2) the forward-backward data matrix of order P as an index map (TLC checks index ranges and the Toeplitz / Hankel structure), applied by the harness to integer data and its singular values compared with the returned ones. ObsC17.tla validates, on noiseless sums of K on-grid exponentials (or K/2 real sinusoids) with subspace dimension K, K < P <= 16, N in 2P..128, several NFFT incl. odd: the K largest local maxima within one bin of the truth on the reported axis, positivity everywhere, singular values = those of the data matrix, non-increasing, exactly K non-negligible.',
+    'design_ref': 'DESIGN.md 3/C17',
+    'note': 'The peak clause and the singular-value clause at realistic sizes are decided from observation events (numpy SVD of the matrix rebuilt by the harness); the exact null-spectrum model of the design was not built.',
+    'technique': 'TLA+ decision table + index-map model enumerated by TLC and replayed; TLC-validated observation events',
+}
+
 NOT_APPLICABLE = {
     'C18': 'Slepian tapers: irrational eigenproblem solved in C; no exact finite model exists and quantised re-verification would make Python the oracle (a different technique). DESIGN.md section 4.',
 }
-for _p in ['C%02d' % i for i in range(1, 21)]:
+for _p in ['C%02d' % i for i in range(1, 21)]:  # anything not built yet would be listed here
     if _p not in CHECKS and _p not in NOT_APPLICABLE:
         NOT_APPLICABLE[_p] = _PENDING
